@@ -307,6 +307,21 @@ func sweepDocumentAPI(c *core.Ctx) {
 		_ = q.GetLimit()
 		_ = q.GetSkip()
 		_ = q.SortOptions()
+		// many DISTINCT valid patterns in one process (whatever an implementation caches must cope with that)
+		sdoc := document.NewDocument()
+		sdoc.Set("s", "p77")
+		hits := 0
+		for i := 0; i < 2200; i++ {
+			if query.Field("s").Like(fmt.Sprintf("^p%d$", i+c.Case*10000)).Satisfy(sdoc) {
+				hits++
+			}
+			if query.Field("s").Like(fmt.Sprintf("^p%d$", i+c.Case*10000)).Not().Satisfy(sdoc) == (i+c.Case*10000 == 77) {
+				return fmt.Errorf("Like/Not(Like) inconsistent for pattern %d", i)
+			}
+		}
+		if want := map[bool]int{true: 1, false: 0}[c.Case == 0]; hits != want {
+			return fmt.Errorf("%d of 2200 distinct Like patterns matched, want %d", hits, want)
+		}
 		// criteria evaluated directly on awkward documents
 		for _, v := range vals {
 			doc := document.NewDocument()
@@ -320,6 +335,10 @@ func sweepDocumentAPI(c *core.Ctx) {
 	c.Eval(len(paths) * len(vals))
 	if pe, ok := IsPanic(err); ok {
 		c.Violate(PanicSig(pe), "document/query API sweep panicked: %v\n%s", pe.Val, trim(pe.Stack, 30))
+		return
+	}
+	if err != nil {
+		c.Violate("sweep:like-patterns", "%v", err)
 		return
 	}
 	c.Cell("sweep|document-api")
